@@ -1,7 +1,7 @@
 (* Concrete runs for C09: the fault placements that broke convergence before the repairs of retry.go
    (findings C09-F1 and C09-F2, fixed) and a multi-fault run; under the repaired retry loop they converge. *)
 From KB Require Import Base.Cases Model.RetrySys Model.C09Cases
-  Proofs.RetryBase Proofs.RetryInv1 Proofs.RetryInv2 Proofs.RetryProps Proofs.RetryInv3 Proofs.RetryInvX.
+  Proofs.RetryBase Proofs.RetryInv1 Proofs.RetryInv2 Proofs.RetryProps Proofs.RetryInv3 Proofs.RetryInvX Proofs.C09Cases.
 Local Open Scope N_scope.
 
 Definition v1 : value := [118; 49].
@@ -102,4 +102,10 @@ Lemma oracle_on_model :
   (c09_check (self_case sc_clean) = true /\ c09_oracle (self_case sc_clean) = None) /\
   (c09_check (self_case sc_F1) = true /\ c09_oracle (self_case sc_F1) = None) /\
   (c09_check (self_case sc_F2) = true /\ c09_oracle (self_case sc_F2) = None).
+Proof. vm_compute. repeat split; reflexivity. Qed.
+
+(* the hypotheses of the oracle-clause theorems hold on these cases (scripts with unknown outcomes on a client commit and on
+   a repair commit, an empty value, a compaction, Lists before and after) *)
+Lemma valid_on_model :
+  c09_validb (self_case sc_clean) = true /\ c09_validb (self_case sc_F1) = true /\ c09_validb (self_case sc_F2) = true.
 Proof. vm_compute. repeat split; reflexivity. Qed.
